@@ -630,9 +630,11 @@ _add("C03", rule="a final ACK presented by another source port of the same host 
      probes=["final_ack_from_another_port", "stray_sweeps"])
 _add("C05", rule="receivers whose window holds 3-8 segments, so that the window and not the congestion window limits the flight; liveness: seven silent "
      "seconds with data outstanding and no earlier timeout must show at least one retransmission (no-retransmission-by-timeout); a connection "
-     "that has sent a reset is not judged further; duplicate ACKs while only the FIN is outstanding are counted, not judged; link write faults "
-     "are deliberately not part of this scenario (its timing clauses are read off the wire, DESIGN.md 0.4)",
-     probes=["window_limited_receiver", "silent_periods"])
+     "that has sent a reset is not judged further; duplicate ACKs while only the FIN is outstanding are counted, not judged; the one link write "
+     "fault of this scenario: the device refuses the first frame of a silent period (as a rule the first timeout's retransmission), which "
+     "counts as a transmission at its instant; the silence after which a missing retransmission is a violation is derived from what the stack "
+     "can have measured (RTO <= max(1 s, 5 x age of the connection); three such periods when a frame was refused)",
+     probes=["window_limited_receiver", "silent_periods", "timeout_retransmissions_refused_by_the_device"])
 _add("C09", rule="15% of the configurations switch spoofing on for an interface (packets for unassigned addresses still reach nobody); ICMP errors "
      "quoting datagrams whose source is not a local address must not be reported to any socket",
      probes=["spoofing_interfaces", "icmp_errors_about_foreign_datagrams"])
